@@ -14,6 +14,7 @@ import time as _time
 from _thread import get_ident as _get_ident
 
 _real_Popen = subprocess.Popen
+_real_os_write = os.write
 _real_setitimer, _real_signal, _real_getsignal = signal.setitimer, signal.signal, signal.getsignal
 TimeoutExpired = subprocess.TimeoutExpired
 PIPE, DEVNULL, STDOUT = subprocess.PIPE, subprocess.DEVNULL, subprocess.STDOUT
@@ -287,9 +288,30 @@ class SimPopen:
         self._inherited_done = False
         if shell or preexec_fn is not None:
             raise Unmodelled("Popen(shell=%r, preexec_fn=%r)" % (shell, preexec_fn))
+        self._file_fds = {}  # stdio given as a real file (object or descriptor): name -> descriptor number
         for name, v in (("stdin", stdin), ("stdout", stdout), ("stderr", stderr)):
-            if v not in (None, PIPE, DEVNULL) and not (name == "stderr" and v == STDOUT):
+            if v is None or (isinstance(v, int) and v in (PIPE, DEVNULL)) or (name == "stderr" and v == STDOUT):
+                continue
+            fd = v if isinstance(v, int) and not isinstance(v, bool) and v >= 0 else None
+            if fd is None and hasattr(v, "fileno"):
+                try:
+                    if hasattr(v, "flush"):
+                        v.flush()
+                    fd = v.fileno()
+                except (OSError, ValueError):
+                    fd = None
+            if fd is None or fd in (0, 1, 2):
                 raise Unmodelled("Popen(%s=%r)" % (name, v))
+            self._file_fds[name] = fd
+        if "stdin" in self._file_fds:
+            # the child reads the file from the offset the descriptor has now
+            fd = self._file_fds["stdin"]
+            try:
+                off = os.lseek(fd, 0, os.SEEK_CUR)
+                size = os.fstat(fd).st_size
+                self._stdin_data = os.pread(fd, max(size - off, 0), off) if size > off else b""
+            except OSError:
+                raise Unmodelled("Popen(stdin=%r): not a regular file" % (stdin,))
         if isinstance(args, (str, bytes)):
             args = [args]
         argv = [os.fsdecode(a) for a in args]
@@ -312,12 +334,12 @@ class SimPopen:
         w.helpers.append(self)
         self._eff = None
         self._finish = None
-        self.stdin = _ChildStdin(self) if stdin == PIPE else None
-        self.stdout = _ChildStream(self, "out") if stdout == PIPE else None
-        self.stderr = _ChildStream(self, "err") if stderr == PIPE else None
+        self.stdin = _ChildStdin(self) if (isinstance(stdin, int) and stdin == PIPE) else None
+        self.stdout = _ChildStream(self, "out") if (isinstance(stdout, int) and stdout == PIPE) else None
+        self.stderr = _ChildStream(self, "err") if (isinstance(stderr, int) and stderr == PIPE) else None
         w.event("helper", self._req, self._idx, "spawn", kind,
-                {None: "inherit", PIPE: "pipe", DEVNULL: "devnull"}[stdin],
-                {None: "inherit", PIPE: "pipe", DEVNULL: "devnull"}[stdout])
+                {None: "inherit", PIPE: "pipe", DEVNULL: "devnull"}.get(stdin if isinstance(stdin, int) or stdin is None else "f", "file"),
+                {None: "inherit", PIPE: "pipe", DEVNULL: "devnull"}.get(stdout if isinstance(stdout, int) or stdout is None else "f", "file"))
         if not self._script_from_stdin:
             self._resolve()
 
@@ -360,6 +382,8 @@ class SimPopen:
         if self._stdin_arg is None:
             return "inherit"
         if self._stdin_arg == PIPE and self._stdin_data:
+            return "data"
+        if "stdin" in self._file_fds and self._stdin_data:
             return "data"
         return "eof"  # DEVNULL, or PIPE that communicate() closes without writing
 
@@ -495,6 +519,13 @@ class SimPopen:
             w.inherited_output(1, self._visible("out"))
         if self._stderr_arg is None and self._visible("err"):
             w.inherited_output(2, self._visible("err"))
+        for name, which in (("stdout", "out"), ("stderr", "err")):
+            fd = self._file_fds.get(name)
+            if fd is not None and self._visible(which):  # what the child wrote into the file it was given
+                try:
+                    _real_os_write(fd, self._visible(which))
+                except OSError:
+                    pass
 
     def _proc_end(self):
         """virtual time at which the helper process itself is gone"""
@@ -697,6 +728,30 @@ def install(world, step_monitoring):
             return (pid, (-rc) if rc < 0 else (rc << 8))
         raise Unmodelled("os.waitpid(%r)" % (pid,))
 
+    real_waitid = getattr(os, "waitid", None)
+
+    def sim_waitid(idtype, ident, options):
+        if idtype == os.P_PID and ident >= FAKE_PID_BASE:
+            p = world.helpers[ident - FAKE_PID_BASE]
+            p._resolve()
+            if not (options & os.WNOHANG):
+                p._reap_by_waiting(None)
+            else:
+                world.clock.advance(0.0005)
+            end = p._proc_end()
+            if end > world.clock.now:
+                return None
+            rc = p.returncode if p.returncode is not None else p._eff["rc"]
+            if not (options & getattr(os, "WNOWAIT", 0)) and p.returncode is None and not p._killed:
+                p._mark_exit()
+            code, status = (1, rc) if (rc is not None and rc >= 0) else (2, -(rc or -9))  # CLD_EXITED / CLD_KILLED
+            return os.waitid_result((ident, 0, 17, status, code))
+        if real_waitid is None:
+            raise AttributeError("waitid")
+        return real_waitid(idtype, ident, options)
+
+    if real_waitid is not None:
+        os.waitid = sim_waitid
     os.kill, os.waitpid = sim_kill, sim_waitpid
     real_getpgid = os.getpgid
 
